@@ -373,7 +373,8 @@ def GradientNormTolerance(tolerance=1e-5, norm=inf):
         if grad is None:
             soln = inst.bestSolution
             cost = inst._cost[1]
-            args = inst._cost[2] or ()
+            args = inst._cost[2]
+            if args is None: args = ()
             grad = approx_fprime(soln, cost, _epsilon, *args)
            #warn = "Warning: using approximate gradient"
            #print(warn)
